@@ -84,3 +84,14 @@ func VerifBoolTag(tag, v string) (bool, string) {
 func VerifValidateNameGroup(name, group string) string {
 	return verifErrClass((&provideOptions{Name: name, Group: group}).Validate())
 }
+
+// VerifGraphCtorNames returns the Name and Package of every constructor of the
+// picture Visualize draws for c (createGraph), in its order.
+func VerifGraphCtorNames(c *Container) [][2]string {
+	dg := c.createGraph()
+	out := make([][2]string, len(dg.Ctors))
+	for i, ct := range dg.Ctors {
+		out[i] = [2]string{ct.Name, ct.Package}
+	}
+	return out
+}
